@@ -150,6 +150,16 @@ def run(ctx):
             inst = models.node_instance(rng, cls)
             inst["options"] = {"optimize_with_greedy": rng.random() < 0.5} if cls in ("kFlowDecomp", "MinFlowDecomp") else {}
             k5_case(ctx, inst, suite="K5.node_mode")
+    # ... with a weighted node that has no edges at all: its value is explained by a route consisting of that node alone
+    for cls in ["kFlowDecomp", "MinFlowDecomp"]:
+        for it in range(ctx.n(4, 30)):
+            inst = models.node_instance(rng, cls)
+            inst["nodes"] = inst["nodes"] + ["iso9"]; rng.shuffle(inst["nodes"])
+            inst["node_flow"] = inst["node_flow"] + [["iso9", str(rng.randint(1, 9))]]
+            inst["options"] = {"optimize_with_greedy": rng.random() < 0.5}
+            if "k" in inst:
+                inst["k"] += 1
+            k5_case(ctx, inst, suite="K5.node_mode_isolated_node")
     # zero-flow edges together with ignored edges (MILP route): nothing may be routed with positive weight over a
     # non-ignored edge of flow 0
     for it in range(ctx.n(40, 400)):
